@@ -32,6 +32,55 @@ def mesh_problem(ctx, k, p):
         return None, "mesh files unreadable: %r" % (e,)
 
 
+def arc_oracle(p, d):
+    """every drawn arc (n0 -> n1 counter-clockwise, span a, maximum segment angle m) must appear in the
+    PSLG handed to Triangle as its polygon of EQUAL chords: the PSLG vertices on the arc, ordered by
+    angle, start at n0, end at n1, are joined pairwise by PSLG segments, subtend equal angles, and no
+    chord subtends more than m.  (That each PSLG chord is a chain of mesh edges is the validator's job.)"""
+    import cmath, math
+    poly = d["poly"]
+    P = [complex(x, y) for (x, y) in poly["points"]]
+    pts = p["points"]
+    for i, q in enumerate(pts):
+        if i >= len(P) or P[i] != complex(q["x"], q["y"]):
+            return "PSLG vertex %d is not the drawn point %d (%r)" % (i, i, (q["x"], q["y"]))
+    segset = set()
+    for (u, v, m) in poly["segs"]:
+        segset.add((u, v)); segset.add((v, u))
+    for ai, a in enumerate(p.get("arcs", [])):
+        p0, p1 = P[a["n0"]], P[a["n1"]]
+        span = math.radians(a["angle"])
+        m = float(a.get("maxseg", 10))
+        ch = p1 - p0
+        c = p0 + ch / 2 + 1j * (ch / 2) / math.tan(span / 2)
+        R = abs(p0 - c)
+        on = []
+        for k, q in enumerate(P):
+            if abs(abs(q - c) - R) > 1e-9 * R:
+                continue
+            th = cmath.phase((q - c) / (p0 - c))
+            if th < -1e-9:
+                th += 2 * math.pi
+            if th <= span + 1e-9:
+                on.append((th, k))
+        on.sort()
+        ids = [k for (_, k) in on]
+        if not ids or ids[0] != a["n0"] or ids[-1] != a["n1"]:
+            return "arc %d: the PSLG vertices on the arc do not run from its first to its last point (found %r)" % (ai, ids[:8])
+        for (t0, u), (t1, v) in zip(on[:-1], on[1:]):
+            if (u, v) not in segset:
+                return ("arc %d (span %g deg, max segment %g deg): consecutive vertices %d and %d on the arc are not joined by a PSLG "
+                        "segment: the arc is not replaced by its chord polygon" % (ai, a["angle"], m, u, v))
+        nch = len(on) - 1
+        for (t0, u), (t1, v) in zip(on[:-1], on[1:]):
+            dth = math.degrees(t1 - t0)
+            if dth > m * (1 + 1e-9):
+                return "arc %d with maximum segment angle %g deg has a chord subtending %.9g deg (%d chords for a span of %g deg)" % (ai, m, dth, nch, a["angle"])
+            if abs(dth - a["angle"] / nch) > 1e-7 * a["angle"]:
+                return "arc %d: chords are not equal (%.12g deg vs %.12g deg)" % (ai, dth, a["angle"] / nch)
+    return None
+
+
 def corrupt(d, how):
     """negative controls: a validator that accepts these is broken"""
     c = copy.deepcopy(d)
@@ -68,6 +117,9 @@ def correspond(ctx):
         if msg:
             ctx.fail(msg, problem=p)
             continue
+        msg = arc_oracle(p, d)
+        if msg:
+            ctx.fail("arc discretisation: " + msg, problem=p)
         if len(d["T"]) > (1500 if ctx.quick() else 8000):
             continue
         e, info = meshlib.to_coq(d)
@@ -100,7 +152,8 @@ def correspond(ctx):
     cov["programs"] = len(cases)
     cov["disagreements_checked"] = len(cases) + len(controls)
     cov["rule"] = ("seeded geometries of all three file types (rectangles with interfaces / inner boxes / holes, nested "
-                   "polygons, circles and rounded shapes built from arcs, multiply connected regions; mesh sizes, minimum "
+                   "polygons, circles and rounded shapes built from arcs, multiply connected regions, cells with (anti)periodic "
+                   "pairs of arcs / lines; every drawn arc must be its equal-chord polygon in the PSLG; mesh sizes, minimum "
                    "angles 1-33 deg, smart mesh on/off) meshed by the real fmesher; every mesh is evaluated by the Coq "
                    "validator; 6 corrupted copies of one mesh must be rejected (negative controls)")
     cov["input_distribution"] = feats
